@@ -11,4 +11,8 @@ exe, err = build.build_driver()
 if not exe:
     print(err); sys.exit(1)
 print("driver:", exe)
+# C18 runs every scenario on two more builds (different automatic-variable initialisation); build them now
+for name, flags in (("zero", ["-ftrivial-auto-var-init=zero"]), ("pattern", ["-ftrivial-auto-var-init=pattern"])):
+    e2, err2 = build.build_driver(variant=name, extra_flags=flags)
+    print("driver[%s]:" % name, e2 or err2[-500:])
 PY
